@@ -419,6 +419,32 @@ def run(ctx):
     ck.floor("big-integer divisions", n_div, 6)
 
     # ------------------------------------------------------------------ R25e
+    # the audited cross-function invariant "the operator that reaches Dialect::op is an atom" rests on eval_pair: in the ((X) ..)
+    # form the operator X must have been rejected if it is a pair BEFORE the Apply step is scheduled (checked, not assumed)
+    ep = cr.fn("run_program::RunProgramContext::<'a, D>::eval_pair")
+    ep.status()
+    applies = [b for b, t in ep.calls() if (t.get("callee") or "").endswith("Vec::<T, A>::push") and len(t["args"]) > 1
+               and show(ep.expr_op(t["args"][1])).startswith("Apply")]
+    guarded = []
+    for ab in applies:
+        okg = False
+        for x in ep.dominators(ab):
+            dv = ep.discr_variants(x)
+            if not dv or not (ep.discr_enum(x) or "").endswith("SExp"):
+                continue
+            cond = show(ep.switch_cond(x))
+            # the tested node is the single element of the inner list / the first of the operator position
+            if "op_utils::get_args(" not in cond and not re.search(r"Allocator::sexp\(.*as Pair\)\.0\) as Pair\)\.0", cond):
+                continue
+            pair_edges = [tgt for tgt, v in ep.succ(x) if (dv.get(v) == "Pair") or (v == "otherwise" and "Pair" not in [dv.get(v2) for _, v2 in ep.succ(x) if v2 != "otherwise"])]
+            atom_edges = [tgt for tgt, v in ep.succ(x) if tgt not in pair_edges]
+            if pair_edges and all(ep.is_error_block(t_) for t_ in pair_edges) and any(t_ == ab or ep.dominates(t_, ab) for t_ in atom_edges):
+                okg = True
+        guarded.append(okg)
+    ck.ob("R25e", "run_program::RunProgramContext::<'a, D>::eval_pair|((X) ..) operator is an atom", bool(applies) and all(guarded),
+          "an Apply step is scheduled only after the operator of the ((X) ..) form was rejected if it is a pair (the operator reaching Dialect::op is then an atom)",
+          site=ep.where(applies[0]) if applies else ep.where(0), detail={"Apply pushes": len(applies), "guarded": guarded})
+    ck.analysed(ep)
     memo = {}
     fails = {}
     n_calls = 0
